@@ -123,7 +123,7 @@ def handle_packet(packet: Packet, args, keylog: bytes, sessions: list[Session], 
         #sessions.append(Session(packet, server_ports, keylog, portmap, exp_meta))
 
 
-def handle_quic_packet(packet: Packet, keylog, quic_sessions: list[QuicSession], portmap):
+def handle_quic_packet(packet: Packet, keylog, quic_sessions: list[QuicSession], portmap, keep_original_ports: bool = False):
     """Matches packet to a session containg QUIC traffic, and initiates the handling of that packet in that session.
         Only used QUIC traffic
 
@@ -177,7 +177,7 @@ def handle_quic_packet(packet: Packet, keylog, quic_sessions: list[QuicSession],
             return
 
     if header_type != QuicHeaderType.SHORT:
-        new_session = QuicSession(packet, server_ports, keylog, portmap)
+        new_session = QuicSession(packet, server_ports, keylog, portmap, keep_original_ports)
         quic_sessions.append(new_session)
         new_session.handle_packet(packet, dcid, quic_version)
 
@@ -257,7 +257,7 @@ def run():
             # using fixed bit for differentiating between QUIC and D-TLS (For further information take a look at RFC 9287)
             if ((int(packet.tls_data[0]) & 0x40) >> 6) == 1 or args.greasy:
                 # QUIC Packet
-                handle_quic_packet(packet, keylog, quic_sessions, portmap)
+                handle_quic_packet(packet, keylog, quic_sessions, portmap, keep_original_ports)
 
             else:
                 # D-TLS Packet
